@@ -31,16 +31,20 @@ def parse_vspec(path):
     """
     @fn KEY
     @returns r
-    @requires            (one clause per line; `#label: clause`)
-    @ensures
-    @entry               (verbatim proof text placed at function entry)
-    @loop N              (invariant / decreases / ensures clauses verbatim, placed after the header of the N-th loop)
-    @loopend N           (verbatim proof text at the end of the body of loop N)
-    @afterloop N / @beforeloop N
+    @nloops N            (optional: lost-anchor guard)
+    @requires / @ensures (one clause per tagged line `#groups[.label]: clause`; untagged lines continue the clause)
+    @sigtail             (verbatim, e.g. `decreases x`)
+    @entry               (proof text placed at function entry; lines may be tagged `#groups: text`)
+    @loop N              (sub-part keyword lines `invariant` / `invariant_except_break` / `ensures` / `decreases`,
+                          then tagged clause lines)
+    @loopend N / @afterloop N / @beforeloop N   (proof text, lines may be tagged)
+    groups: comma separated clause groups (see unit.GROUPS); `*` = shared.  A line is emitted iff it is untagged or
+    one of its groups is active for the property being checked.
     """
     out = {}
     cur, sec = None, None
     for ln, line in enumerate(open(path).read().split("\n"), 1):
+        origin = "%s:%d" % (os.path.basename(path), ln)
         if line.startswith("@fn "):
             cur = Contract(line[4:].strip())
             if cur.key in out:
@@ -50,7 +54,7 @@ def parse_vspec(path):
             continue
         if line.startswith("@returns ") or line.startswith("@nloops "):
             k, v = line[1:].split(None, 1)
-            cur.sections[k] = [(None, v.strip(), "%s:%d" % (os.path.basename(path), ln))]
+            cur.sections[k] = [Cl(None, None, v.strip(), origin)]
             continue
         if line.startswith("@"):
             sec = line[1:].strip()
@@ -58,18 +62,44 @@ def parse_vspec(path):
                 raise Unsupported("%s:%d section outside @fn" % (path, ln))
             cur.sections.setdefault(sec, [])
             continue
-        if line.strip().startswith("//!"):
+        if line.strip().startswith("//!") or not line.strip():
             continue
         if cur is None or sec is None:
-            if line.strip():
-                raise Unsupported("%s:%d text outside section" % (path, ln))
-            continue
-        m = re.match(r"\s*#([A-Za-z0-9_.\-]+):\s*(.*)$", line)
+            raise Unsupported("%s:%d text outside section" % (path, ln))
+        m = re.match(r"\s*#([A-Za-z0-9_,*]+)(?:\.([A-Za-z0-9_\-]+))?:\s?(.*)$", line)
         if m:
-            cur.sections[sec].append((m.group(1), m.group(2), "%s:%d" % (os.path.basename(path), ln)))
-        elif line.strip():
-            cur.sections[sec].append((None, line, "%s:%d" % (os.path.basename(path), ln)))
+            cur.sections[sec].append(Cl(set(m.group(1).split(",")), m.group(2), m.group(3), origin))
+        else:
+            cur.sections[sec].append(Cl(None, None, line, origin))
     return out
+
+
+class Cl:
+    """one line of a contract section"""
+
+    def __init__(self, groups, label, text, origin):
+        self.groups, self.label, self.text, self.origin = groups, label, text, origin
+
+    def name(self):
+        g = ",".join(sorted(self.groups)) if self.groups else ""
+        return (g + "." + self.label) if self.label else g
+
+
+def select(lines, active):
+    """keep untagged lines and lines with an active group; an untagged line directly following a dropped tagged line
+    (continuation of that clause) is dropped too"""
+    out, keep = [], True
+    for c in lines:
+        if c.groups is not None:
+            keep = active is None or '*' in c.groups or bool(c.groups & active)
+        elif c.text.strip() in KEYWORDS:
+            keep = True
+        if keep:
+            out.append(c)
+    return out
+
+
+KEYWORDS = ("invariant", "invariant_except_break", "ensures", "decreases", "requires")
 
 
 # ------------------------------------------------------------------------------------------------
@@ -216,7 +246,7 @@ class Emitted:
         return "\n".join(self.lines) + "\n"
 
 
-def splice_fn(it_spec, item, contract, unit, em, extraction):
+def splice_fn(it_spec, item, contract, unit, em, extraction, active=None):
     """emit one function"""
     key = it_spec["key"]
     src_sig = strip_comments(item.sig)
@@ -234,7 +264,7 @@ def splice_fn(it_spec, item, contract, unit, em, extraction):
     sig = apply_rules(sig, unit.get("type_rules", []))
     ret = None
     if contract is not None and contract.get("returns"):
-        ret = contract.get("returns")[0][1].strip()
+        ret = contract.get("returns")[0].text.strip()
         m = re.search(r"->\s*(.+?)\s*$", sig, re.S)
         if not m:
             raise Unsupported("%s: @returns given but no return type" % key)
@@ -263,27 +293,19 @@ def splice_fn(it_spec, item, contract, unit, em, extraction):
     em.add(sig.rstrip(), item=key, part="sig")
     if contract is not None:
         for sec in ("requires", "ensures"):
-            cl = contract.get(sec)
+            cl = select(contract.get(sec), active)
             if cl:
                 em.add("    " + sec, item=key, part=sec)
-                cur_label = None
-                for n, (label, text, origin) in enumerate(cl):
-                    if label is not None:
-                        cur_label = label
-                    text = text.rstrip()
-                    last_of_clause = (n + 1 == len(cl)) or cl[n + 1][0] is not None
-                    if last_of_clause and not text.endswith(","):
-                        text += ","
-                    em.add("        " + text, item=key, part=sec, label=cur_label, origin=origin)
-        for label, text, origin in contract.get("sigtail"):
-            em.add("    " + text.rstrip(), item=key, part="sigtail", label=label, origin=origin)
+                emit_clauses(cl, em, key, sec)
+        for c in select(contract.get("sigtail"), active):
+            em.add("    " + c.text.rstrip(), item=key, part="sigtail", origin=c.origin)
     # loops: splice from the last to the first so offsets stay valid
-    body = splice_loops(body, contract, key)
+    body = splice_loops(body, contract, key, active)
     # entry
-    entry = contract.get("entry") if contract is not None else []
+    entry = select(contract.get("entry"), active) if contract is not None else []
     if entry:
-        etxt = "\n".join(t for _, t, _ in entry)
-        body = "{\n" + "/*@entry*/ " + etxt + "\n" + body.lstrip()[1:]
+        etxt = "\n".join("/*@entry*/ " + c.text for c in entry)
+        body = "{\n" + etxt + "\n" + body.lstrip()[1:]
     emit_body(body, key, em)
     extraction.append(dict(key=key, file=os.path.relpath(item.path, REPO), lines=[a, b], sha256=h,
                            rules=[dict(rule=r, original=o) for r, o in log]))
@@ -292,7 +314,45 @@ def splice_fn(it_spec, item, contract, unit, em, extraction):
 _MARK = re.compile(r"/\*@(\w+)(?: ([^*]*))?\*/")
 
 
-def splice_loops(body, contract, key):
+def emit_clauses(cl, em, key, part):
+    """tagged line starts a clause; following untagged lines continue it; a comma is appended to each clause"""
+    cur = None
+    for n, c in enumerate(cl):
+        if c.groups is not None:
+            cur = c
+        text = c.text.rstrip()
+        last_of_clause = (n + 1 == len(cl)) or cl[n + 1].groups is not None or cl[n + 1].text.strip() in KEYWORDS
+        if text.strip() in KEYWORDS:
+            em.add("      " + text.strip(), item=key, part=part)
+            continue
+        if last_of_clause and not text.endswith(","):
+            text += ","
+        em.add("        " + text, item=key, part=part, label=(cur.name() if cur else None), origin=c.origin)
+
+
+def loop_clause_text(cl):
+    """same as emit_clauses but returns marker-annotated text for later emission by emit_body"""
+    out, cur, kw = [], None, None
+    pending_kw = None
+    for n, c in enumerate(cl):
+        text = c.text.rstrip()
+        if text.strip() in KEYWORDS:
+            pending_kw = text.strip()
+            continue
+        if c.groups is not None:
+            cur = c
+        last_of_clause = (n + 1 == len(cl)) or cl[n + 1].groups is not None or cl[n + 1].text.strip() in KEYWORDS
+        if last_of_clause and not text.endswith(","):
+            text += ","
+        if pending_kw:
+            out.append("/*@kw*/ " + pending_kw)
+            kw = pending_kw
+            pending_kw = None
+        out.append("/*@cl %s|%s|%s*/ %s" % (cur.name() if cur else "", kw or "", c.origin, text))
+    return "\n".join(out)
+
+
+def splice_loops(body, contract, key, active=None):
     lp = lower.loops(body)
     if contract is None:
         return body
@@ -304,31 +364,24 @@ def splice_loops(body, contract, key):
     if wanted and max(wanted) > len(lp):
         raise Unsupported("lost anchor: %s has %d loops, contract mentions loop %d" % (key, len(lp), max(wanted)))
     if contract.get("nloops"):
-        want = int(contract.get("nloops")[0][1])
+        want = int(contract.get("nloops")[0].text)
         if want != len(lp):
             raise Unsupported("lost anchor: %s has %d loops, contract expects %d" % (key, len(lp), want))
-    # collect insertions (offset, text)
     ins = []
     for n, (kw, ob, cb) in enumerate(lp, 1):
-        inv = contract.get("loop %d" % n)
+        inv = select(contract.get("loop %d" % n), active)
         if inv:
-            ins.append((ob, "\n/*@loop %d*/\n" % n + "\n".join("/*@cl %s|%s*/ %s" % (l or "", o, t) for l, t, o in inv) + "\n/*@endloop*/\n"))
-        le = contract.get("loopend %d" % n)
-        if le:
-            ins.append((cb, "\n/*@hint loopend%d*/ " % n + "\n".join(t for _, t, _ in le) + "\n"))
-        al = contract.get("afterloop %d" % n)
-        if al:
-            ins.append((cb + 1, "\n/*@hint afterloop%d*/ " % n + "\n".join(t for _, t, _ in al) + "\n"))
-        bl = contract.get("beforeloop %d" % n)
-        if bl:
-            ins.append((kw, "/*@hint beforeloop%d*/ " % n + "\n".join(t for _, t, _ in bl) + "\n"))
+            ins.append((ob, "\n/*@loop %d*/\n" % n + loop_clause_text(inv) + "\n/*@endloop*/\n"))
+        for sec, off, nm in (("loopend", cb, "loopend"), ("afterloop", cb + 1, "afterloop"), ("beforeloop", kw, "beforeloop")):
+            le = select(contract.get("%s %d" % (sec, n)), active)
+            if le:
+                ins.append((off, "\n" + "\n".join("/*@hint %s%d*/ %s" % (nm, n, c.text) for c in le) + "\n"))
     for off, txt in sorted(ins, key=lambda x: -x[0]):
         body = body[:off] + txt + body[off:]
     return body
 
 
 def emit_body(body, key, em):
-    part, label, origin = "body", None, None
     loopn = None
     for line in body.split("\n"):
         m = re.match(r"\s*/\*@loop (\d+)\*/", line)
@@ -338,9 +391,13 @@ def emit_body(body, key, em):
         if re.match(r"\s*/\*@endloop\*/", line):
             loopn = None
             continue
-        m = re.match(r"\s*/\*@cl ([^|]*)\|([^*]*)\*/ (.*)$", line)
+        m = re.match(r"\s*/\*@kw\*/ (.*)$", line)
         if m:
-            em.add("        " + m.group(3), item=key, part="loop%d" % loopn, label=m.group(1) or None, origin=m.group(2))
+            em.add("      " + m.group(1), item=key, part="loop%d" % loopn)
+            continue
+        m = re.match(r"\s*/\*@cl ([^|]*)\|([^|]*)\|([^*]*)\*/ (.*)$", line)
+        if m:
+            em.add("        " + m.group(4), item=key, part="loop%d/%s" % (loopn, m.group(2)), label=m.group(1) or None, origin=m.group(3))
             continue
         m = re.match(r"\s*/\*@hint (\w+)\*/ (.*)$", line)
         if m:
@@ -380,7 +437,7 @@ def items_of(path):
     return _cache[path]
 
 
-def generate(unit_dir, features=("parallel", "shred-derive"), mode="T", mutate=None):
+def generate(unit_dir, features=("parallel", "shred-derive"), mode="T", active=None):
     """returns (Emitted, extraction list, contracts).  mutate: optional callable(key, emitted_text)->text used by
     canaries (applied to the generated text of one function)."""
     sys.path.insert(0, unit_dir)
@@ -434,7 +491,7 @@ def generate(unit_dir, features=("parallel", "shred-derive"), mode="T", mutate=N
                 used.add(key)
             if c is None and it_spec.get("need_contract", True):
                 raise Unsupported("no contract for %s" % key)
-            splice_fn(it_spec, item, c, unit, em, extraction)
+            splice_fn(it_spec, item, c, unit, em, extraction, active)
         else:
             emit_plain(it_spec, item, unit, em, extraction)
     if cur_owner is not None:
@@ -472,8 +529,16 @@ def select_mode(txt, mode, features):
 
 
 if __name__ == "__main__":
-    em, ex, _, _ = generate(sys.argv[1])
-    out = sys.argv[2]
-    open(out, "w").write(em.text())
-    json.dump(dict(extraction=ex, linemap=em.meta), open(out + ".map.json", "w"))
-    print("wrote", out, len(em.lines), "lines")
+    import argparse
+    ap = argparse.ArgumentParser()
+    ap.add_argument("unit")
+    ap.add_argument("out")
+    ap.add_argument("--groups", default=None)
+    ap.add_argument("--mode", default="T")
+    ap.add_argument("--features", default="parallel,shred-derive")
+    a = ap.parse_args()
+    act = set(a.groups.split(",")) if a.groups else None
+    em, ex, _, _ = generate(a.unit, features=tuple(a.features.split(",")), mode=a.mode, active=act)
+    open(a.out, "w").write(em.text())
+    json.dump(dict(extraction=ex, linemap=em.meta), open(a.out + ".map.json", "w"))
+    print("wrote", a.out, len(em.lines), "lines")
